@@ -309,4 +309,70 @@ theorem tilt_line_iff (f : Fmt) (style : String) (cols : List ColSpec) (hcols : 
     simp only [dataDocOf, List.mem_append]
     exact Or.inl (Or.inl (Or.inl (Or.inr hbox)))
 
+/-! ### positions after applying the image flags -/
+
+theorem v3_add_def (a b : V3 ℚ) : a + b = ⟨a.x + b.x, a.y + b.y, a.z + b.z⟩ := rfl
+
+/-- the lattice shift the image flags stand for is the same with the padded cell vectors as with the original ones:
+    periodic vectors are untouched and flags along non-periodic directions are zero. -/
+theorem flags_shift_padded (b : Box ℚ) (pbc : V3 Bool) (pos : List (V3 ℚ)) (p : V3 ℚ) :
+    M3.vecMul ⟨((C05.atomFlags Rat.floor b pbc p).x : ℚ), ((C05.atomFlags Rat.floor b pbc p).y : ℚ),
+        ((C05.atomFlags Rat.floor b pbc p).z : ℚ)⟩ (C05.wrap Rat.floor (1 / 1000) b pbc pos).box.vects
+      = C05.latticeVec b.vects (C05.atomFlags Rat.floor b pbc p) := by
+  obtain ⟨px, py, pz⟩ := pbc
+  simp only [C05.wrap, C05.paddedBox, C05.bounds, C05.latticeVec, M3.vecMul, V3.smul, C05.atomFlags, C05.flagsOf,
+    C05.flagOf, V3.mk.injEq]
+  cases px <;> cases py <;> cases pz <;>
+    simp [C05.axisBounds]
+
+/-- **positions after applying the image flags** (exact numbers the file prints): `x + ix·a + iy·b + iz·c` with the cell
+    vectors a LAMMPS run builds from the written header is the atom's original position in the length unit. -/
+theorem data_unwrap (s : Sys) (lf : Option ℚ) (hlf : ∀ c, lf = some c → c ≠ 0)
+    (hn : (wrap s.box s.pbc s.pos).box.isLammpsNorm = true) (k : Nat) (hk : k < s.pos.length) :
+    ∃ q fl, (wrap s.box s.pbc s.pos).pos[k]? = some q ∧ (wrap s.box s.pbc s.pos).flags[k]? = some fl ∧
+      unwrapPos ((hiLoOf (wrap s.box s.pbc s.pos).box).map (divBy lf)) (v3map (divBy lf) q) fl
+        = v3map (divBy lf) s.pos[k] := by
+  have hdet := det_ne_zero_of_wrap_norm s.box s.pbc s.pos hn
+  generalize s.pos = pos at hk hn hdet ⊢
+  cases pos with
+  | nil => simp at hk
+  | cons p0 ps =>
+    obtain ⟨e1, e2, e3⟩ := wrap_eq_c05 s.box s.pbc p0 ps
+    rw [e1] at hn ⊢
+    rw [e2, e3]
+    refine ⟨C05.atomPos Rat.floor s.box s.pbc (p0 :: ps)[k], C05.atomFlags Rat.floor s.box s.pbc (p0 :: ps)[k],
+      ?_, ?_, ?_⟩
+    · show ((p0 :: ps).map (C05.atomPos Rat.floor s.box s.pbc))[k]? = _
+      rw [List.getElem?_map, List.getElem?_eq_getElem hk]; rfl
+    · show ((p0 :: ps).map (C05.atomFlags Rat.floor s.box s.pbc))[k]? = _
+      rw [List.getElem?_map, List.getElem?_eq_getElem hk]; rfl
+    set p := (p0 :: ps)[k] with hp
+    have hrec := C05.atom_reconstruct Rat.floor s.box hdet s.pbc p
+    have hsh := flags_shift_padded s.box s.pbc (p0 :: ps) p
+    set B := (C05.wrap Rat.floor (1 / 1000) s.box s.pbc (p0 :: ps)).box with hB
+    set q := C05.atomPos Rat.floor s.box s.pbc p with hq
+    set fl := C05.atomFlags Rat.floor s.box s.pbc p with hfl
+    obtain ⟨h1, h2, h3, _, _, _⟩ := norm_facts B hn
+    -- componentwise
+    rw [← hsh] at hrec
+    obtain ⟨⟨⟨ax, ay, az⟩, ⟨bx, by', bz⟩, ⟨cx, cy, cz⟩⟩, ⟨ox, oy, oz⟩⟩ := B
+    simp only at h1 h2 h3
+    subst h1 h2 h3
+    obtain ⟨qx, qy, qz⟩ := q
+    obtain ⟨fx, fy, fz⟩ := fl
+    obtain ⟨ppx, ppy, ppz⟩ := p
+    simp only [M3.vecMul, v3_add_def, V3.mk.injEq] at hrec
+    obtain ⟨r1, r2, r3⟩ := hrec
+    cases lf with
+    | none =>
+      simp only [unwrapPos, boxOfHiLo, hiLoOf, HiLo.map, divBy, v3map, M3.vecMul, v3_add_def, V3.mk.injEq]
+      refine ⟨by linarith, by linarith, by linarith⟩
+    | some c =>
+      have hc := hlf c rfl
+      simp only [unwrapPos, boxOfHiLo, hiLoOf, HiLo.map, divBy, v3map, M3.vecMul, v3_add_def, V3.mk.injEq]
+      refine ⟨?_, ?_, ?_⟩
+      · rw [← r1]; field_simp; ring
+      · rw [← r2]; field_simp; ring
+      · rw [← r3]; field_simp; ring
+
 end Atomman.C07
